@@ -29,6 +29,9 @@ def final_sig(st: Store):
                         if not mb.noselect))
 
 
+MH_SEQ_FLAGS = {"flagged": "\\Flagged", "replied": "\\Answered", "Draft": "\\Draft"}
+
+
 def _sync(st: Store, sn: str):
     s = st.session(sn)
     mb = st.mboxes.get(s.selected) if s.selected else None
@@ -243,7 +246,8 @@ def apply_step(st: Store, sn: str, i: int, ev: dict, stp: str, res: dict, ctx: d
         return
     if op == "env_deliver":
         for k in range(ev.get("n", 1)):
-            st2.deliver(ev["m"], ev.get("cids", [f"env{i}x{k}"])[k] if ev.get("cids") else f"env{i}x{k}", ev.get("unseen", True))
+            st2.deliver(ev["m"], ev.get("cids", [f"env{i}x{k}"])[k] if ev.get("cids") else f"env{i}x{k}", ev.get("unseen", True),
+                        flags=[MH_SEQ_FLAGS[q] for q in ev.get("seqs", ())])
         yield out(st2, ("OK",))
         return
     try:
